@@ -1112,11 +1112,21 @@ Proof. destruct k, j; simpl; intros H; try contradiction; reflexivity. Qed.
 Lemma scalar_mismatch_not_null k j : scalar_kind_mismatch k j -> j <> JNull.
 Proof. destruct k, j; simpl; intros H; try contradiction; discriminate. Qed.
 
+(* the guard of the rejection theorems is exactly: foreign kind, and not one
+   of the two pinned leniencies *)
+Lemma mismatch_exact k j :
+  scalar_kind_mismatch k j <-> (scalar_kind_foreign k j /\ lenient_scalar_case k j = false).
+Proof.
+  destruct k, j; simpl; split; intros H; try contradiction; try (destruct H; contradiction);
+    try (destruct H; discriminate); auto.
+Qed.
+
 Theorem wrong_rejected s t j : wrong s t j -> not_ok (coerce_value s j t).
 Proof.
   induction 1; intros v.
   - rewrite cv_null, H. discriminate.
-  - rewrite cv_named_eq by (eapply scalar_mismatch_not_null; eauto).
+  - assert (Hm : scalar_kind_mismatch k j) by (apply mismatch_exact; auto).
+    rewrite cv_named_eq by (eapply scalar_mismatch_not_null; eauto).
     unfold cv_named. rewrite H. rewrite scalar_mismatch_rejected by assumption. discriminate.
   - rewrite cv_named_eq by discriminate. unfold cv_named. rewrite H. simpl.
     unfold int_range. rewrite H0. discriminate.
